@@ -124,6 +124,14 @@ func escape(s string, m map[rune]string) string {
 		case '\\', '"', '\'':
 			v = append(v, `\`+string(c))
 		default:
+			// Meta characters whose base is not printable (\M-\C-x is
+			// read back as two keys, escapes are not read after \M-):
+			// only their octal code is read back as the same character.
+			if IsMeta(c) && !unicode.IsPrint(Demeta(c)) {
+				v = append(v, fmt.Sprintf(`\%03o`, c))
+				continue
+			}
+
 			var s string
 			if IsControl(c) {
 				s += `\C-`
@@ -138,7 +146,7 @@ func escape(s string, m map[rune]string) string {
 			if unicode.IsPrint(c) {
 				s += string(c)
 			} else {
-				s += fmt.Sprintf(`\x%2x`, c)
+				s += fmt.Sprintf(`\x%02x`, c)
 			}
 
 			v = append(v, s)
